@@ -86,6 +86,9 @@ def poly_divmod(
         return floor[0], remainder[0]
 
     quotient = numpoly.zeros(dividend_.shape)
+    if not dividend_.size:
+        # empty arrays hold no coefficients: nothing to reduce
+        return quotient, dividend_
     while True:
         candidates = get_division_candidate(dividend_, divisor)
         if candidates is None:
